@@ -4,4 +4,5 @@ set -e
 cd "$(dirname "$0")"
 mkdir -p .work evidence replays
 (cd lean && lake build)
+ln -sfn "${VERIF_REPO:-/repo}" harness/bio-src
 (cd harness && CARGO_NET_OFFLINE=true cargo build --release --offline)
